@@ -18,9 +18,9 @@ CHECKS = {
           "Round-trip oracle for BYE and APP; the BYE sweep (reason length 0..=255 x padding {0,4,8,252} x sources {0,1,31}) is exhaustive for the arithmetic that decides the layout. The saved failing inputs of earlier defects and of the seeded changes are replayed first in every tier; the thorough tier adds 8 libFuzzer processes whose in-target oracle is this property's oracle.", "DESIGN.md 3/C04"),
  "C05": e("round-trip PBT over feedback builders x FCI generators (NACK window boundaries, FIR re-adds, RPSI length x bits sweep); thorough tier adds a coverage-guided libFuzzer campaign (hand-decoded builder configurations -> the same oracle)",
           "Round-trip oracle: builder bytes -> typed parser -> parse_fci::<F> compared with the configured set / map / list / bit string (RPSI as bits). Two known findings (empty SLI / FIR list) are keyed on their exact signatures. The saved failing inputs of earlier defects and of the seeded changes are replayed first in every tier; the thorough tier adds 8 libFuzzer processes whose in-target oracle is this property's oracle.", "DESIGN.md 3/C05"),
- "C06": e("PBT over (configuration, construction path incl. measure-then-configure, buffer length) incl. invalid configurations; oracle = agreement of calculate_size and write_into for every buffer length 0..=n+8; largest-packet leg (65536 / 65537 words); FCI builders used directly as writers; thorough tier adds a coverage-guided libFuzzer campaign (hand-decoded builder configurations -> the same oracle)",
+ "C06": e("PBT over (configuration, construction path incl. measure-then-configure, buffer length) incl. invalid configurations; oracle = agreement of calculate_size and write_into for every buffer length 0..=n+8; largest-packet leg (65536 / 65537 words); thorough tier adds a coverage-guided libFuzzer campaign (hand-decoded builder configurations -> the same oracle)",
           "For every generated configuration the announced size is compared with write_into on every buffer length from 0 to n+8 (sampled above 160 bytes); sweeps: every padding byte per kind, RPSI length x bits, every feedback x FCI pairing, SDES chunk/item builders. The saved failing inputs of earlier defects and of the seeded changes are replayed first in every tier; the thorough tier adds 8 libFuzzer processes whose in-target oracle is this property's oracle.", "DESIGN.md 3/C06"),
- "C07": e("differential PBT: proptest-generated builder configurations + bounded-exhaustive sweeps vs an independent RFC encoder; thorough tier adds a coverage-guided libFuzzer campaign (hand-decoded builder configurations -> the same oracle)",
+ "C07": e("differential PBT: proptest-generated builder configurations (every construction path, exact buffer and buffer with slack) + bounded-exhaustive sweeps vs an independent RFC encoder; thorough tier adds a coverage-guided libFuzzer campaign (hand-decoded builder configurations -> the same oracle)",
           "Every accepted configuration's bytes must equal the image computed by a separately written RFC 3550/4585/5104 encoder (FIR as a multiset, NACK by reference decoding + minimal word count). Sees symmetric writer/parser errors that round trips cannot. The saved failing inputs of earlier defects and of the seeded changes are replayed first in every tier; the thorough tier adds 8 libFuzzer processes whose in-target oracle is this property's oracle.", "DESIGN.md 3/C07"),
  "C08": e("PBT + exhaustive header-space sweep + every-length-field sweep (bodies up to 512 KiB) over byte strings; oracle = framing predicate recomputed independently on every accepted string; thorough tier adds a coverage-guided libFuzzer campaign (raw bytes -> the same oracle)",
           "Whenever any typed parser, the generic parser or the unknown parser accepts a generated string, the framing conditions and header accessor values are recomputed from the bytes by the reference; the header-space sweep (1.4 M strings x 9 parsers in quick) is exhaustive over version x P x count x PT x length field x length x last byte. The saved failing inputs of earlier defects and of the seeded changes are replayed first in every tier; the thorough tier adds 8 libFuzzer processes whose in-target oracle is this property's oracle.", "DESIGN.md 3/C08"),
